@@ -137,11 +137,13 @@ def run(rep):
     rng = rep.rng
     pool = objects.vector_item_pool()
     events = []
-    for cls, obj, wire in objects.templates():
-        if not cls.__module__.startswith('cryptoparser.dnsrec.record') or isinstance(obj, enum.Enum) or type(obj) is not cls:
-            continue
+    temps = [(cls, obj) for cls, obj, wire in objects.templates()
+             if cls.__module__.startswith('cryptoparser.dnsrec.record') and not isinstance(obj, enum.Enum) and type(obj) is cls]
+    temps += [(type(o), o) for o in generated(rep, False)[:12]]
+    for cls, obj in temps:
         events += event_for(obj, 'parsed')
-        for desc, var in variants.variants(obj, rng, pool, per_field=20 if thorough else 10):
+        for desc, var in variants.variants(obj, rng, pool, per_field=20 if thorough else 10,
+                                           others=[o for c, o in temps if c is cls and o is not obj]):
             events += event_for(var, 'variant:' + desc)
     for o in generated(rep, thorough):
         events += event_for(o, 'generated')
